@@ -22,6 +22,7 @@ theorem Ty.TF.noAlias : ∀ (n : Nat) (t : Ty), t.w ≤ n → t.TF → t.NoAlias
     · exact ih _ (by omega) h
     · exact ih _ (by omega) h
     · exact ih _ (by omega) h
+    · exact ih _ (by omega) h
 
 theorem dtypeL_length (vs : List Val) : (dtypeL cfg sfh vs).length = vs.length := by
   induction vs with
@@ -258,6 +259,7 @@ theorem Ty.TF.us : ∀ (n : Nat) (t : Ty), t.w ≤ n → t.TF → t.US := by
     · right; exact ⟨ih _ (by omega) h.1, ih _ (by omega) h.2⟩
     · rename_i ts g; right; exact fun t' hm => ih t' (by have := Ty.w_lt_wl hm; omega) (h t' hm)
     · rename_i ts; exact fun t' hm => ih t' (by have := Ty.w_lt_wl hm; omega) (h t' hm)
+    · exact ih _ (by omega) h
     · exact ih _ (by omega) h
     · exact ih _ (by omega) h
     · exact ih _ (by omega) h
